@@ -238,7 +238,20 @@ def all_chars_check(chk, drv, teletype, P, OpenDocumentText, load):
                 chk.fail('roundtrip-direct', {'s': enc_str(s)}, 'extractText differs at offset %d: %r for %r' % (k, got[k - 4:k + 4], s[k - 4:k + 4]))
         if not clean_nodes(new):
             chk.fail('raw-whitespace', {'s': enc_str(s)}, 'inserted nodes %s' % short(impl))
-    back = saveload_paragraphs(teletype, P, OpenDocumentText, load, strings)
+    try:
+        back = saveload_paragraphs(teletype, P, OpenDocumentText, load, strings)
+    except Exception as e:
+        # save() or load() of a document made of nothing but XML characters raised (seeded change C17-r7m2: only the first 64 KiB of a
+        # part decoded): the strings one by one tell which of them does it
+        bad = None
+        for one in strings:
+            try:
+                saveload_paragraphs(teletype, P, OpenDocumentText, load, [one])
+            except Exception as e1:
+                bad = (one, e1); break
+        one, e1 = bad if bad else (u''.join(strings), e)
+        chk.fail('roundtrip-saveload', {'s': enc_str(one), 'mode': 'saveload'},
+                 'save+load of text inserted with the helper raises %s: %s' % (type(e1).__name__, short(str(e1)))); return
     if back is None:
         chk.fail('roundtrip-saveload', {'s': enc_str(mixed[0]), 'mode': 'saveload'}, 'paragraph count differs after save+load'); return
     suspects = []
@@ -295,8 +308,12 @@ def run(chk, replay=None):
         got = teletype.extractText(p)
         print('replay: s=%r nodes=%s extract=%r' % (s, dump_nodes(new), got))
         if replay['input'].get('mode') == 'saveload':
-            back = saveload_paragraphs(teletype, P, OpenDocumentText, load, [s])
-            print('replay: after save+load extract=%r' % (back and back[0],))
+            try:
+                back = saveload_paragraphs(teletype, P, OpenDocumentText, load, [s])
+            except Exception as e:
+                print('replay: save+load raises %s: %s' % (type(e).__name__, short(str(e))))
+                return 1
+            print('replay: after save+load extract=%r' % (short(back[0]) if back and back[0] is not None else back,))
             if back != [s]:
                 return 1
         return 0 if got == before + s and clean_nodes(new) else 1
